@@ -376,6 +376,8 @@ type Exec struct {
 	panicsWhen string // entry-state term: documented panic condition
 	ghostLoop  *Loop
 	loopEntry  map[*Loop]*State // state on entry to each loop (before the havoc), for lold()
+	heldEntry  string           // HELD at function entry (from the lock clauses)
+	heldEmitted bool
 }
 
 func (vc *VC) newExec(fn *ssa.Function, ts TSubst, parent *Exec) *Exec {
